@@ -23,7 +23,7 @@ def values(quick, addr):
                     vs.add(v)
     # around the instruction's own address, for PC-relative fields
     for k in ((1, 2, 7, 8, 10, 11, 12, 15, 16) if quick else range(1, 25)):
-        for d in (-1, 0, 1):
+        for d in (-3, -2, -1, 0, 1, 2, 3):          # neighbours inside one aligned word: a target that is rounded down collides with its neighbour
             for s in (1, -1):
                 t = addr + s * (1 << k) + d
                 if 0 <= t < (1 << 32):
@@ -169,8 +169,16 @@ def decoder_templates(ci, limit):
     for cnt, ln, bh, t in texts:
         if "???" in t or not t:
             continue
+        m = re.search(r"\(address=0x([0-9a-fA-F]+)\)\s*$", t)
         t = re.sub(r"\s*\([^()]*=[^()]*\)\s*$", "", t)
         t = t.split(" -- ")[0].strip()
+        if m and re.search(r"@\(\d+,\s*PC\)", t):
+            # the decoder names the target of a PC-relative operand; the assembler also takes the target itself in that place
+            alt = re.sub(r"@\(\d+,\s*PC\)", "0x" + m.group(1), t, count=1)
+            ka = NUMABS.sub("N", alt)
+            if ka not in seen:
+                seen.add(ka)
+                out.append(alt)
         k = NUMABS.sub("N", t)
         if k not in seen:
             seen.add(k)
